@@ -30,7 +30,7 @@ partial def loop (h : IO.FS.Stream) (acc : RunAcc) (maxDiffs : Nat) : IO RunAcc 
   let toks := (lhs.splitOn " ").filter (· ≠ "")
   match toks with
   | "case" :: id :: kind :: _ =>
-    let k := if kind == "dpq" then Kind.dpq else Kind.pq
+    let k := if kind == "dpq" then PQ.Kind.dpq else PQ.Kind.pq
     loop h { acc with st := { kind := k, s := Store.empty }, caseId := id, caseLine := 0, skip := false,
                       cases := acc.cases + 1 } maxDiffs
   | _ =>
